@@ -65,7 +65,11 @@ pub fn tx_bytes(tx: &tir::Tx) -> BTreeSet<Vec<u8>> {
 pub fn oracles_gal(tx: &tir::Tx, mainnet: bool) -> String {
     use tx3_cardano::pallas::ledger::addresses::Address;
     let net = if mainnet { tx3_cardano::Network::Mainnet } else { tx3_cardano::Network::Testnet };
-    let bs = tx_bytes(tx);
+    let mut bs = tx_bytes(tx);
+    // the tables are looked up with what addr_parse returns as well: pallas accepts some byte strings
+    // whose re-encoding differs (trailing bytes), so the re-encoded forms are keys too
+    let extra: Vec<Vec<u8>> = bs.iter().filter_map(|b| Address::from_bytes(b).ok().map(|a| a.to_vec())).collect();
+    bs.extend(extra);
     let tab = |f: &dyn Fn(&[u8]) -> Option<Vec<u8>>| {
         gal::list(
             &bs.iter()
